@@ -21,7 +21,7 @@ import (
 func init() {
 	driver.Register(&driver.Engine{
 		ID: "C09", Level: "exploration",
-		Rule: "static arm: a generated valid program (internal/gen) gets exactly one rule violation planted at a random syntactic position (undefined name; break/continue outside a loop incl. in a nested def inside a loop; return at top level; load inside def/loop/if; while; set; top-level if/for/while; rebinding a global, a def name or a loaded name; augmented assignment at top level; duplicate/misordered/*-related parameter errors in def and lambda; duplicate/misordered/*/** argument errors; 256 positional / 256 named arguments; augmented assignment to a tuple or list; assignment to a call, literal or operator expression). The planted and the unplanted program are then compiled (never executed) under ALL 64 FileOptions vectors; the oracle is an independent requirement analysis of the tree (which options the program needs) plus the knowledge of what was planted: expected accept/reject per vector, a reported error inside the planted construct's span, and no host event for rejected programs. dynamic arm: call graphs over <= 4 functions reaching an active definition through plain calls, lambdas, two closures of one def, and sorted/min/max callbacks, judged against the reference evaluator's rule 'definition already active => error unless Recursion'. distinct = distinct (plant kind, placement context) and distinct call-graph programs",
+		Rule: "static arm: a generated valid program (internal/gen) gets exactly one rule violation planted at a random syntactic position (undefined name; break/continue outside a loop incl. in a nested def inside a loop; return at top level; load inside def/loop/if; while; set; top-level if/for/while; rebinding a global, a def name or a loaded name; augmented assignment at top level; duplicate/misordered/*-related parameter errors in def and lambda; duplicate/misordered/*/** argument errors; 256 positional / 256 named arguments; augmented assignment to a tuple or list; assignment to a call, literal or operator expression). The planted and the unplanted program are then compiled (never executed) under ALL 64 FileOptions vectors; the oracle is an independent requirement analysis of the tree (which options the program needs) plus the knowledge of what was planted: expected accept/reject per vector, a reported error inside the planted construct's span, and no host event for rejected programs. dynamic arm: call graphs over <= 4 functions reaching an active definition through plain calls, lambdas, two closures of one def, and sorted/min/max callbacks, judged against the reference evaluator's rule 'definition already active => error unless Recursion'. expression-route arm: expression templates that place the universal set (gated by Set), a control name, an undefined name or an option-independent rule violation (lambda parameter / call argument rules, 256 arguments, scope leaks) at every expression position (call, lambda body/default, comprehension body/iterables/condition, dead branches, arguments, index/slice, nested lambda-in-comprehension-in-default) and lambdas re-entered directly, through sorted and through a comprehension are sent through EvalOptions, EvalExprOptions, ExprFuncOptions(+call), resolve.ExprOptions, ExecREPLChunk and ExecFileOptions under all 64 vectors: accept exactly when the needed option is on, error inside the construct, no host event before rejection or before the expression function is called, recursion refused exactly when Recursion is off. argument-limit arm: calls with p positional and n named arguments over a boundary grid of (p, n) (incl. 128+128, 200+100, 255+255, 255/256 each) with and without *args/**kwargs in 7 contexts: rejected at the call exactly when p or n exceeds 255, otherwise compiled without panic and executed, the callee receiving exactly the arguments written. callback-length arm: sorted/min/max (key=, reverse=, varargs form) over list/tuple/comprehension/dict/range sequences of every length 0..4 (0..9 thorough) whose key callback is an active definition (direct, via lambda, mutual, second closure of one def, self-referring lambda), entered from the module and by starlark.Call: with Recursion off every length >= 1 must fail with 'called recursively' before another traced body runs, length 0 and Recursion on must complete. distinct = distinct (plant kind, placement context), distinct call-graph programs, distinct (template, construct), (p, n) pairs and (builtin, path, sequence, length) tuples",
 		Assumptions: []string{"the requirement analysis (needs While / Set / TopLevelControl / GlobalReassign) is written for the shapes internal/gen produces", "internal/refeval implements the recursion rule by definition identity"},
 		Run:         run,
 		MinDistinct: 60,
@@ -534,6 +534,9 @@ func run(c *driver.Ctx) {
 	armStatic(c)
 	armSequences(c)
 	armRecursion(c)
+	armExprRoutes(c)
+	armArgLimit(c)
+	armCallbackLengths(c)
 }
 
 // ---- exhaustive parameter / argument sequences ----
@@ -697,8 +700,14 @@ func armStatic(c *driver.Ctx) {
 			plantedValid := pl == nil || pl.validUnder(opts)
 			// the plant itself may be what creates a requirement (e.g. a planted rebind): fold it in
 			expectAccept := requirementsMet && plantedValid
-			_, _, err := starlark.SourceProgramOptions(opts, "prog.star", src, isPredeclared)
+			var err error
+			pn := sl.Safe(func() { _, _, err = starlark.SourceProgramOptions(opts, "prog.star", src, isPredeclared) })
 			c.Eval(1)
+			if pn != nil {
+				c.Violation("C09 compile-panic "+plantName, fmt.Sprintf("Go panic instead of accept/reject under %s: %s at %s", sl.OptionsString(opts), pn.String(), pn.TopFrame()),
+					map[string]any{"options": sl.OptionsString(opts), "plant": plantName, "context": ctx, "source": src})
+				continue
+			}
 			accepted := err == nil
 			detail := map[string]any{"options": sl.OptionsString(opts), "plant": plantName, "context": ctx, "source": src, "error": fmt.Sprint(err),
 				"needs": fmt.Sprintf("while=%v set=%v toplevelcontrol=%v globalreassign=%v", ti.needs.while, ti.needs.set, ti.needs.topControl, ti.needs.globalReassign)}
